@@ -1,6 +1,7 @@
 import AgdbStorage.Model.StorageSpec
 import AgdbStorage.Lemmas.AllocReach
 import AgdbStorage.Lemmas.AllocWfAll
+import AgdbStorage.Lemmas.AllocUnbounded
 /-
 C04 — Stored data survives any pattern of space reuse and defragmentation.
 
@@ -144,6 +145,17 @@ theorem C04_reopen : C04_reopen_statement := by
   refine ⟨hok, ?_⟩
   rw [h.abs, hok]
   rfl
+
+/-- The reopen statement as first written — plain `Reachable`, no `u64` hypothesis.  It is FALSE of
+the model (not of the Rust code): the model's naturals are unbounded, so a value of `2^64` bytes can
+be inserted, its header stores the size modulo `2^64`, and after `reopen` no value can be that long.
+This is why `Fits` / `ReachableF` appear in the theorems above. -/
+def C04_reopen_unbounded_statement : Prop :=
+  ∀ (s : Storage), Reachable s → s.txn = 0 →
+    (s.step .reopen).2 = .ok none ∧ (s.step .reopen).1.abs = s.abs
+
+theorem C04_reopen_unbounded_counterexample : ¬ C04_reopen_unbounded_statement :=
+  reopen_unbounded_counterexample
 
 /-- Link to C01: every `StorageData::write` call a storage operation issues lies inside the file
 or starts exactly at its end, and every offset fits `u64` (`wfOps`, `FsOp.wf` of `Model/Wal.lean`),
